@@ -43,6 +43,12 @@ import (
 
 type c15Assert struct{ msg string }
 
+// Hooks filled in by c15nft_test.go (external test package): the nftables half of the check.
+var (
+	C15NftExplore func(c *vk.Ctx)
+	C15NftReplay  func(c *vk.Ctx, spec string, hist []string)
+)
+
 // statistics only (never read by the harness logic)
 var c15Rejected, c15Raced, c15FaultedApplies, c15WritingApplies atomic.Int64
 
@@ -947,6 +953,12 @@ func TestVerif_C15(t *testing.T) {
 				c.ToolError(err.Error())
 				return
 			}
+			if strings.HasPrefix(d.Spec, "nftables-") {
+				C15NftReplay(c, d.Spec, d.History)
+				c.Add("states", 1)
+				c.Add("transitions", int64(len(d.History)))
+				return
+			}
 			cfg := c15CfgFromName(d.Spec)
 			cfg.MaxFaults = 2
 			cfg.NoInv = true
@@ -1001,6 +1013,11 @@ func TestVerif_C15(t *testing.T) {
 			pw.PostWrite = true
 			hbfs.Explore(c, c15Spec(pw, 4, false))
 			hbfs.Explore(c, c15Spec(leg, 3, true))
+		}
+		if C15NftExplore != nil {
+			C15NftExplore(c)
+		} else {
+			c.ToolError("nftables half of C15 not linked in")
 		}
 		c.Extra("applies_incl_probes", map[string]int64{"kernel_rejected_transactions": c15Rejected.Load(), "raced_with_other_program": c15Raced.Load(),
 			"with_injected_faults": c15FaultedApplies.Load(), "that_wrote_to_the_table": c15WritingApplies.Load()})
